@@ -8,7 +8,7 @@ id="$1"; n="$2"; dst="/verif/seeded/$id-$n"; wt=/tmp/confirm-wt
 cd "$wt" || exit 2
 git checkout -q -- . && git clean -fdq -e target && git checkout -q --detach "$(git -C /repo rev-parse HEAD)" || exit 2
 git apply "$dst/patch.diff" && git apply "$dst/demo.diff" || { echo "diffs do not apply to HEAD" > "$dst/confirm.log"; exit 3; }
-demo=$(python3 -c "import json;print(json.load(open('$dst/meta.json'))['demo_cmd'])")
+demo=$(python3 -c "import json,re;print(re.split(r'\s+\(', json.load(open('$dst/meta.json'))['demo_cmd'])[0].strip())")
 log="$dst/confirm.log"; : > "$log"
 echo "## suite with patch (+demo) at $(git -C /repo rev-parse --short HEAD)" >> "$log"
 flock /tmp/suite.lock timeout 1500 cargo test --workspace --no-fail-fast --offline 2>&1 | grep -E "^test result|^test .* FAILED" >> "$log"
